@@ -33,7 +33,7 @@ import gen_score as G
 
 PROPERTY = "C09"
 DRIVER = "drv_c09"
-PROPS = ["PartituraModel.Props.C09"]
+PROPS = ["PartituraModel.Props.C09", "PartituraModel.Props.C09Ext"]
 TRUSTED = [
     "Python dict insertion order, list.sort on '<n>_Volta_<ID>' strings (modelled as sort on (digit, id))",
     "copy.copy of score objects (shallow: attributes other than start/end/references are carried unchanged)",
